@@ -678,19 +678,52 @@ func c07flightClosuresDontSerialise(c *Ctx) {
 						}
 						cl := mc.Fn.(*ssa.Function)
 						sites++
-						// forward may-held dataflow over the literal's blocks (a deferred Unlock holds to the end)
-						in := map[*ssa.BasicBlock]int{}
-						deferredUnlock := false
-						for _, cb := range cl.Blocks {
-							for _, ci := range cb.Instrs {
-								if d, ok := ci.(*ssa.Defer); ok && isLock(&d.Call, "Unlock", "RUnlock") {
-									deferredUnlock = true
+						usesLock := false
+						visited := map[*ssa.Function]bool{}
+						var scan func(cl *ssa.Function, depth int)
+						scan = func(cl *ssa.Function, depth int) {
+							if visited[cl] || cl.Blocks == nil {
+								return
+							}
+							visited[cl] = true
+							// forward may-held dataflow over the function's blocks (a deferred Unlock holds to the end)
+							in := map[*ssa.BasicBlock]int{}
+							deferredUnlock := false
+							for _, cb := range cl.Blocks {
+								for _, ci := range cb.Instrs {
+									if d, ok := ci.(*ssa.Defer); ok && isLock(&d.Call, "Unlock", "RUnlock") {
+										deferredUnlock = true
+									}
 								}
 							}
-						}
-						changed := true
-						for iter := 0; changed && iter < 20; iter++ {
-							changed = false
+							changed := true
+							for iter := 0; changed && iter < 20; iter++ {
+								changed = false
+								for _, cb := range cl.Blocks {
+									h := in[cb]
+									for _, ci := range cb.Instrs {
+										cci, ok := ci.(ssa.CallInstruction)
+										if !ok {
+											continue
+										}
+										if _, isDefer := ci.(*ssa.Defer); isDefer {
+											continue
+										}
+										switch {
+										case isLock(cci.Common(), "Lock", "RLock"):
+											h = 1
+										case isLock(cci.Common(), "Unlock", "RUnlock"):
+											h = 0
+										}
+									}
+									for _, s := range cb.Succs {
+										if h > in[s] {
+											in[s] = h
+											changed = true
+										}
+									}
+								}
+							}
 							for _, cb := range cl.Blocks {
 								h := in[cb]
 								for _, ci := range cb.Instrs {
@@ -704,57 +737,37 @@ func c07flightClosuresDontSerialise(c *Ctx) {
 									switch {
 									case isLock(cci.Common(), "Lock", "RLock"):
 										h = 1
+										usesLock = true
+										continue
 									case isLock(cci.Common(), "Unlock", "RUnlock"):
 										h = 0
+										continue
 									}
-								}
-								for _, s := range cb.Succs {
-									if h > in[s] {
-										in[s] = h
-										changed = true
+									if _, isBuiltin := cci.Common().Value.(*ssa.Builtin); isBuiltin {
+										continue
 									}
+									if h == 0 {
+										// a helper introduced after the pinned tree (the literal's body extracted, say) is part of the literal
+										if cal := cci.Common().StaticCallee(); cal != nil && cal.Pkg == cl.Pkg && depth < 2 && !baselineFuncs[cal.String()] {
+											scan(cal, depth+1)
+										}
+										continue
+									}
+									what := "a call"
+									if cal := cci.Common().StaticCallee(); cal != nil {
+										what = funcDisplay(cal)
+									} else if cci.Common().IsInvoke() {
+										what = cci.Common().Method.FullName()
+									}
+									how := ""
+									if deferredUnlock {
+										how = " (the unlock is deferred to the end of the function)"
+									}
+									bad = append(bad, fmt.Sprintf("%s: the flight literal in %s calls %s while holding a mutex%s (in %s): the flights of all keys queue behind it", c.P.Pos(cci.Pos()), funcDisplay(fn), what, how, funcDisplay(cl)))
 								}
 							}
 						}
-						usesLock := false
-						for _, cb := range cl.Blocks {
-							h := in[cb]
-							for _, ci := range cb.Instrs {
-								cci, ok := ci.(ssa.CallInstruction)
-								if !ok {
-									continue
-								}
-								if _, isDefer := ci.(*ssa.Defer); isDefer {
-									continue
-								}
-								switch {
-								case isLock(cci.Common(), "Lock", "RLock"):
-									h = 1
-									usesLock = true
-									continue
-								case isLock(cci.Common(), "Unlock", "RUnlock"):
-									h = 0
-									continue
-								}
-								if h == 0 {
-									continue
-								}
-								if _, isBuiltin := cci.Common().Value.(*ssa.Builtin); isBuiltin {
-									continue
-								}
-								what := "a call"
-								if cal := cci.Common().StaticCallee(); cal != nil {
-									what = funcDisplay(cal)
-								} else if cci.Common().IsInvoke() {
-									what = cci.Common().Method.FullName()
-								}
-								how := ""
-								if deferredUnlock {
-									how = " (the unlock is deferred to the end of the literal)"
-								}
-								bad = append(bad, fmt.Sprintf("%s: the flight literal in %s calls %s while holding a mutex%s: the flights of all keys queue behind it", c.P.Pos(cci.Pos()), funcDisplay(fn), what, how))
-							}
-						}
+						scan(cl, 0)
 						if usesLock {
 							locking++
 						}
